@@ -4,6 +4,8 @@ import (
 	"fmt"
 	"go/token"
 	"go/types"
+	"sort"
+	"strings"
 
 	"golang.org/x/tools/go/ssa"
 	"verif/checker/internal/core"
@@ -88,6 +90,8 @@ func runC10(c *core.Ctx) {
 	c.Rule("R3", "recycle only after the batch's transport.Writev; one fresh pointer per recycled packet", 1)
 	c.Rule("R4", "no other Put recycles a buffer that may be queued", 1)
 	c.Rule("R5", "synchronous branch does not retain the caller's slice", 1)
+	c.Rule("R6", "the sender's scratch lists (batch, recycle list) do not share a backing array", 1)
+	runScratchDisjoint(c, e, "R6")
 
 	// ---- R1
 	for _, E := range r.Enqueuers {
@@ -691,5 +695,81 @@ func (e *ev) checkForwardedClone(c *core.Ctx, fn *ssa.Function, bi, pi int, name
 			}
 			c.Unk("R1", cname, p.InstrPos(in), "clone flag is not a constant at this caller")
 		})
+	}
+}
+
+// runScratchDisjoint: every slice-typed field of the channel struct gets storage of its own. One make() whose
+// result (re-sliced) is stored into two such fields gives two lists over one array: appending to the first
+// past the start of the second overwrites it (a packet recycled twice, another never). Sharing is accepted
+// only when every such store goes through a three-index slice (capacity limited at the carve).
+func runScratchDisjoint(c *core.Ctx, e *ev, R string) {
+	p, r := c.P, e.r
+	isScratch := map[*types.Var]bool{}
+	for _, f := range core.FlatFields(r.Chan) {
+		if _, ok := f.Type().Underlying().(*types.Slice); ok {
+			isScratch[f] = true
+		}
+	}
+	c.Instance(R)
+	if len(isScratch) == 0 {
+		c.OK(R, "scratch-lists", "", "the channel keeps no slice-typed state")
+		return
+	}
+	n := 0
+	for _, fn := range p.Funcs {
+		core.AllInstrs(fn, func(in ssa.Instruction) {
+			var src ssa.Value
+			switch x := in.(type) {
+			case *ssa.MakeSlice:
+				src = x
+			case *ssa.Alloc:
+				if _, isArr := x.Type().Underlying().(*types.Pointer).Elem().Underlying().(*types.Array); isArr {
+					src = x
+				}
+			}
+			if src == nil {
+				return
+			}
+			fields := map[*types.Var]bool{}
+			uncapped := 0
+			for v := range taint(src) {
+				if v.Referrers() == nil {
+					continue
+				}
+				for _, ref := range *v.Referrers() {
+					st, ok := ref.(*ssa.Store)
+					if !ok || st.Val != v {
+						continue
+					}
+					f, _ := core.FieldOf(st.Addr)
+					if f == nil || !isScratch[f] || fields[f] {
+						continue
+					}
+					fields[f] = true
+					capped := false
+					if sl, ok := core.Unwrap(v).(*ssa.Slice); ok && sl.Max != nil {
+						capped = true
+					}
+					if !capped {
+						uncapped++
+					}
+				}
+			}
+			if len(fields) == 0 {
+				return
+			}
+			n++
+			c.Instance(R)
+			var names []string
+			for f := range fields {
+				names = append(names, f.Name())
+			}
+			sort.Strings(names)
+			c.Check(len(fields) == 1 || uncapped == 0, R, "scratch-lists/"+core.FName(fn)+"/own-storage", p.InstrPos(in), "allocation feeds one list (or every carve limits its capacity)",
+				"one allocation is stored into the lists "+strings.Join(names, ", ")+" without limiting their capacities: appending to one list runs into the other (a queued packet is recycled twice / dropped from the recycle list)")
+		})
+	}
+	if n == 0 {
+		c.OK(R, "scratch-lists", "", "no allocation in the repository is stored into the channel's slice fields")
 	}
 }
